@@ -10,6 +10,7 @@ package fstree
 import (
 	"fmt"
 	"io"
+	"math/rand/v2"
 	"testing"
 
 	"github.com/nspcc-dev/neofs-node/internal/verifkit"
@@ -153,6 +154,55 @@ func (s *vf11Store) ask(o *vf11.Obj, req vf11.Req, k int) {
 	}
 }
 
+// call draws one range read of a random API on a random object of objs (overlap phases).
+func (s *vf11Store) call(rng *rand.Rand, objs []*vf11.Obj) vf11.Call {
+	o := objs[rng.IntN(len(objs))]
+	req := vf11.RandReq(rng, o)
+	withHook := rng.IntN(2) == 0
+	var hook func([]byte) error
+	if withHook {
+		var calls int
+		hook = vf11.Intercept(&calls)
+	}
+	bufLen := 2*vf11.NPFBL + rng.IntN(3)*1000
+	c := vf11.Call{Layer: "fstree", O: o, Req: req}
+	api := rng.IntN(3)
+	if api == 1 && req.Mode != common.PayloadRangeModeOffsetLength {
+		api = 0
+	}
+	switch api {
+	case 0:
+		c.API = "GetRangeStream"
+		c.Open = func() (io.ReadCloser, func() []byte, error) {
+			_, _, stream, err := s.fsC.GetRangeStream(o.Addr, req.Range(), withHook)
+			return stream, nil, err
+		}
+	case 1:
+		c.API = "ReadPayloadRange"
+		c.Open = func() (io.ReadCloser, func() []byte, error) {
+			var stream io.ReadCloser
+			stream, err := s.fsC.ReadPayloadRange(o.Addr, req.A, req.B, make([]byte, bufLen), hook)
+			return stream, nil, err
+		}
+	default:
+		c.API = "ReadObjectParts"
+		c.Open = func() (io.ReadCloser, func() []byte, error) {
+			buf := make([]byte, bufLen)
+			n, stream, err := s.fsC.ReadObjectParts(buf, o.Addr, req.Range(), hook)
+			return vf11.PartsOpen(req, buf, n, stream, err)
+		}
+	}
+	return c
+}
+
+func vf11Flatten(groups [][]*vf11.Obj) []*vf11.Obj {
+	var out []*vf11.Obj
+	for _, g := range groups {
+		out = append(out, g...)
+	}
+	return out
+}
+
 func TestVerif_C11(t *testing.T) {
 	r := verifkit.Start(t, "C11", "exploration")
 	defer r.Finish()
@@ -165,7 +215,7 @@ func TestVerif_C11(t *testing.T) {
 		small = []int{0, 1, 2, 3, 7, 31, 64}
 	}
 	nBig, nDirected := r.Pick(10, 60), r.Pick(120, 300)
-	r.SetRule(fmt.Sprintf("payload lengths %v: every request of the four modes with both values in 0..len+2, plus values near 2^31/2^32/2^63/2^64; %d larger payloads (up to 100 KiB; object lengths aimed at the 20 KiB buffered prefix, twice that, and compressed forms below/above it) with %d requests each whose ends are aimed at the buffered-prefix boundaries and the payload end; every object stored as plain file, batch-written combined member, single-member combined file, zstd file, planted combined member and compressed combined member; every request through GetRangeStream, ReadPayloadRange (offset/length) and ReadObjectParts, with and without header interception; distinct = (api, format, object length class, mode, request shape, interception)", small, nBig, nDirected))
+	r.SetRule(fmt.Sprintf("payload lengths %v: every request of the four modes with both values in 0..len+2, plus values near 2^31/2^32/2^63/2^64; %d larger payloads (up to 100 KiB; object lengths aimed at the 20 KiB buffered prefix, twice that, and compressed forms below/above it) with %d requests each whose ends are aimed at the buffered-prefix boundaries and the payload end; every object stored as plain file, batch-written combined member, single-member combined file, zstd file, planted combined member and compressed combined member; every request through GetRangeStream, ReadPayloadRange (offset/length) and ReadObjectParts, with and without header interception; distinct = (api, format, object length class, mode, request shape, interception). Besides one-at-a-time requests: batches of 2..8 range reads (random API/object/format, ends aimed at the same boundaries) whose answers have overlapping lifetimes under a seeded schedule (issue next call / read a chunk or the rest of an open answer / abandon and close early / close late), and rounds of 24 reads from 4 goroutines; every answer judged by the same resolver; distinct there = (api, format, length class, outcome, number of calls issued during the answer's life, abandoned)", small, nBig, nDirected))
 
 	cnr, owner := verifkit.RandCID(r.Rand("ids", 0)), verifkit.RandUser(r.Rand("ids", 1))
 	k := 0
@@ -193,6 +243,9 @@ func TestVerif_C11(t *testing.T) {
 		}
 		r.Count("small_payload_lengths_enumerated", 1)
 	}
+	// 1b. answers with overlapping lifetimes / concurrent requests on the small objects
+	smallObjs := vf11Flatten(groups)
+	vf11.OverlapPhase(r, "small", 0, r.Pick(40, 400), r.Pick(2, 10), func(rng *rand.Rand) vf11.Call { return st.call(rng, smallObjs) })
 	if r.Thorough() {
 		r.Assume("exhaustive for payload lengths 0..64 and request values 0..len+2 in all four modes")
 	}
@@ -259,6 +312,10 @@ func TestVerif_C11(t *testing.T) {
 				r.Sample(map[string]any{"object_len": len(o.Bin), "payload_len": L, "payload_start": o.PStart, "marks": vf11.Marks(o), "first_requests": fmt.Sprint(reqs[:6])})
 			}
 		}
+		// 2b. overlapping / concurrent answers on this store: the big object in all formats and its neighbours
+		bigObjs := vf11Flatten(groups)
+		bigObjs = append(bigObjs, groups[0]...) // the big one twice as likely
+		vf11.OverlapPhase(r, "big", b*1000, r.Pick(10, 30), 1, func(rng *rand.Rand) vf11.Call { return st.call(rng, bigObjs) })
 		r.Count("big_objects", 1)
 		r.Max("max_payload_len", int64(len(payload)))
 	}
